@@ -17,6 +17,8 @@ CLAIMS = {
                 note=_NOTE, technique="symbolic execution of apply_query/update/get_with (CrossHair+z3) against an overlay/decision-table oracle"),
     "C19": dict(z=True, text=_X + ". extrapolate_templates / pattern_replacing are executed on a generated family of configurations (names from pools chosen by symbolic indices) against a reference; the live shipped table is compared with the reference applied to the raw module.",
                 note=_NOTE, technique="symbolic execution of extrapolate_templates/pattern_replacing (CrossHair+z3) over a solver-enumerated configuration grammar; reference comparison of the live table"),
+    "C13": dict(text=_X + ". The three real cache wrappers are executed on 3-call histories with mixed positional/keyword passing and forced eviction; the real cached entry points (path, Sid(path=), path_to_dict, unfold_search) on 2-call histories with caches on. Domains are finite (hashing realises), so the solver enumerates histories.",
+                note=_NOTE, technique="symbolic execution (CrossHair+z3) of the cache wrappers and cached entry points on solver-enumerated 2-3 call histories, compared with the unwrapped functions"),
 }
 
 NOT_APPLICABLE = {}
